@@ -91,6 +91,31 @@ Inductive err :=
 Definition subset_selects (n m pid : N) : bool :=
   (pid mod m) =? (if x_subset_reduces_n then n mod m else n).
 
+(* --- ReadSubsetOption::apply_with_rng over the packs handed to read_data.  The IndexPacks come from
+   the in-memory index (`size` unset), so `pack_size()` is computed from the blobs.  `shuffle` stands
+   for `packs.shuffle(rng)`: any permutation.  Percentages are whole numbers here (the code computes
+   `(total as f64 * p / 100.0) as u64`). --- *)
+Inductive subset := SAll | SPercentage (p : N) | SSize (s : N) | SIdSubSet (n m : N).
+Definition rsize (p : ipack) : N := computed_size (ip_blobs p).
+Definition packs_total (l : list ipack) : N := fold_right (fun p a => rsize p + a) 0 l.
+(* `packs.retain(|p| if size > p_size { size -= p_size; true } else { false })`; whether a pack that
+   fits exactly is kept ([>=]) is regenerated from the source *)
+Fixpoint retain_budget (exact : bool) (size : N) (l : list ipack) : list ipack :=
+  match l with
+  | [] => []
+  | p :: r =>
+    if (if exact then rsize p <=? size else rsize p <? size)
+    then p :: retain_budget exact (size - rsize p) r
+    else retain_budget exact size r
+  end.
+Definition apply_subset (o : subset) (shuffle : list ipack -> list ipack) (l : list ipack) : list ipack :=
+  match o with
+  | SAll => l
+  | SIdSubSet n m => filter (fun p => subset_selects n m (ip_id p)) l
+  | SPercentage pc => retain_budget x_subset_fits_exactly (packs_total l * pc / 100) (shuffle l)
+  | SSize sz => retain_budget x_subset_fits_exactly sz (shuffle l)
+  end.
+
 Section Repo.
   Variable B : Type.
   Variable hash : B -> id.
@@ -319,8 +344,23 @@ Section Repo.
 
   Definition mem_id (x : id) (l : list id) : bool := existsb (N.eqb x) l.
 
-  (* check_repository with read_data = true, read_data_subset = All, no cache, no hot store *)
-  Definition check (fuel : nat) : option (list err) :=
+  (* read_data: of the packs of check's index those that are not missing and are "used": collected
+     by check_trees, or (since the fix of duplicate-blob-copy-unverified; fact regenerated from the
+     source) holding a copy of a blob of a collected pack — any copy may be the one restore's own
+     index answers with *)
+  Definition pack_keys (p : ipack) : list (btype * id) := map (fun b => (ptype p, ib_id b)) (ip_blobs p).
+  Definition key_eqb (a b : btype * id) : bool := btype_eqb (fst a) (fst b) && (snd a =? snd b).
+  Definition used_keys (used : list id) : list (btype * id) :=
+    flat_map (fun p => if mem_id (ip_id p) used then pack_keys p else []) index_packs.
+  Definition is_read (used : list id) (p : ipack) : bool :=
+    mem_id (ip_id p) used ||
+    (x_reads_all_copies && existsb (fun k => existsb (key_eqb k) (used_keys used)) (pack_keys p)).
+  Definition read_list (used : list id) : list ipack :=
+    filter (fun p => negb (mem_id (ip_id p) missing_packs) && is_read used p) index_packs.
+
+  (* check_repository with read_data = true, no cache, no hot store; [sub] = the read-data-subset
+     selection applied to the packs to read *)
+  Definition check_with (sub : list ipack -> list ipack) (fuel : nat) : option (list err) :=
     if negb (st_meta_ok st) then Some [EMeta] else
     (* `let index = index?.1;` in check_packs: an unreadable index file makes check return Err *)
     if negb (st_index_ok st) && x_unreadable_index_aborts_check then Some [EMeta] else
@@ -328,10 +368,12 @@ Section Repo.
     | None => None
     | Some (et, used) =>
       Some ((if st_snap_names_ok st then [] else [ESnapName]) ++ check_packs ++ et ++
-            flat_map (fun p => if mem_id (ip_id p) missing_packs then []
-                               else if mem_id (ip_id p) used then check_pack p else [])
-                     index_packs)
+            flat_map check_pack (sub (read_list used)))
     end.
+  (* read_data_subset = All *)
+  Definition check (fuel : nat) : option (list err) := check_with (fun l => l) fuel.
+  Definition check_subset (o : subset) (shuffle : list ipack -> list ipack) (fuel : nat) : option (list err) :=
+    check_with (apply_subset o shuffle) fuel.
 
   (* --- restore / dump: every tree and every file chunk is fetched through an index built afresh
      (same files, order of equal keys unspecified): [sel] is that index' answer --- *)
